@@ -103,7 +103,7 @@ def gen(module, consts, files, timeout=1800):
     d = vk.scratch_spec(SPEC_DIR)
     cfg = os.path.join(d, "gen.cfg")
     vk.write_cfg(cfg, "Spec", consts)
-    vk.tlc_mc(d, module, cfg, workers=1, timeout=timeout)
+    vk.tlc_mc(d, module, cfg, workers=1, timeout=timeout, reuse=False)      # run for its side effect: the serialised case files
     shutil.rmtree(d, ignore_errors=True)
     out = []
     for f in files:
